@@ -269,6 +269,38 @@ def run_c16(prop, tier, replay):
         if ln is None:
             raise vlib.Broken("TLC rejected an unknown line %r" % rj)
         sig, det = fs.classify_c16(rj, ln)
+        if ln["ev"] == "Kill":
+            # In which cycle were the offending bytes written ("wc" of the lookups after the kill)?  Bytes of the killed
+            # cycle that are neither acknowledged nor the one store logged as in flight mean that the parent accounted
+            # fewer stores than the child performed: a defect of the harness's bookkeeping, never a verdict on the store.
+            wc = {}
+            for x in lines:
+                if x["t"] == rj["t"] and x["n"] > rj["n"]:
+                    if x["ev"] not in ("Reopen", "Get"):
+                        break
+                    if x["ev"] == "Get" and x["s"].get("res"):
+                        wc[fs.key(x["a"]["id"])] = x["s"]["res"][0].get("wc")
+            det["written_in_cycle"] = {"%d/%s/%d/%d" % k: v for k, v in wc.items()
+                                       if any(fs.key(b["id"]) == k for b in rj.get("spec", {}).get("bad", []))}
+            cyc = ln["a"].get("cycle")
+            # every (identifier, tag) the parent accounted for the killed cycle: acknowledged runs + the store in flight
+            accounted, tab = set(), []
+            for x in lines:
+                if x["t"] != rj["t"] or x["n"] >= rj["n"]:
+                    continue
+                if x["ev"] == "Reset":
+                    tab = x["a"].get("ids", [])
+                elif x["ev"] in ("Close", "Kill"):
+                    accounted = set()
+                elif x["ev"] == "StoreAcked":
+                    accounted |= {(fs.key(tab[k]), tag) for k, tag in x["a"]["vs"]}
+                elif x["ev"] == "Store":
+                    accounted.add((fs.key(x["a"]["v"]["id"]), x["a"]["v"]["tag"]))
+            unaccounted = [b["id"] for b in rj.get("spec", {}).get("bad", [])
+                           if cyc is not None and wc.get(fs.key(b["id"])) == cyc and (fs.key(b["id"]), b.get("found")) not in accounted]
+            if unaccounted:
+                raise vlib.Broken("harness accounting: after the kill of cycle %s the store holds bytes written in that very cycle for %s "
+                                  "that the parent never accounted (neither in an acknowledged run nor as the store in flight)" % (cyc, unaccounted))
         sigs[sig] += 1
         # the recorded history of that directory up to the lookups that follow the rejected line (re-validated by --replay)
         hist, after = [], False
